@@ -1,5 +1,6 @@
 import NdnProofs.Lemmas.PacketEnc
 import NdnProofs.Lemmas.PacketParseInterest
+import NdnProofs.Lemmas.PacketParseInterestAt
 import NdnProofs.Props.C08
 /-!
 # C01 — Interest and Data packets survive an encode/decode round trip
@@ -115,9 +116,11 @@ def dataValueFs : List Schema := [nameS, metaS, contentS, dataSigInfoS, .bytes 2
 
 /-- **parse_make_data_partial.** Decoding the Value of a made Data with the Data field list gives back
     exactly the name, MetaInfo, Content, SignatureInfo and signature that went in (C08 round trip).
-    *Partial*: stated on the marker-free field list.  The statement with the five OffsetMarker
-    pseudo-fields is `C02.parsed_cover_is_signed_portion_data`; the Interest side is `parse_make_interest`,
-    `parse_make_interest_params` and `parse_make_interest_plain` below. -/
+    *Partial*: stated on the marker-free field list.  The statements with the five OffsetMarker
+    pseudo-fields are `C02.parsed_cover_is_signed_portion_data` (signed) and `parse_make_data_unsigned` (unsigned,
+    below); the Interest side is `parse_make_interest`, `parse_make_interest_params`, `parse_make_interest_plain`
+    and, for a name that already carries a digest placeholder at any position, `parse_make_interest_placeholder` /
+    `parse_make_interest_params_placeholder` below. -/
 theorem parse_make_data_partial (name : List Bytes) (mi content sigInfo : Value) (sig p : Bytes)
     (hp : encFields [nameS, metaS, contentS, dataSigInfoS] [.name name, mi, content, sigInfo] = .ok p)
     (hfit : fitsFs [nameS, metaS, contentS, dataSigInfoS] [.name name, mi, content, sigInfo] = true)
@@ -321,6 +324,287 @@ example :
          List.replicate 7 (Value.uint 0) ++
            [Value.name [[8, 1, 97], 2 :: 32 :: List.replicate 32 9], .bool, .none, .none, .uint 7, .none, .uint 3] ++
            [.uint 50, .uint 50, .bytes [1], .none, .none, .none]) := by
+  rfl
+
+end Ndn.C01
+
+namespace Ndn.C01
+open Ndn Ndn.Codec Ndn.Packet
+
+/-! ### an Interest whose name already carries a ParametersSha256Digest placeholder (at any position) -/
+
+/-- `make_interest` on a name `pre ++ [placeholder] ++ post` with exactly one digest component, when a digest is
+    needed (signed, or ApplicationParameters given): `interestCore` with the placeholder's position. -/
+theorem make_interest_is_core_at (H : Bytes → Bytes) (pre post : List Bytes) (c : Bytes) (mid : List Value)
+    (appParam sigInfo : Value) (signer : Option SignerOut)
+    (hneed : (!isNone (effApp signer.isSome appParam)) = true)
+    (hpre : ∀ x ∈ pre, isDigestComp x = false) (hc : isDigestComp c = true)
+    (hpost : ∀ x ∈ post, isDigestComp x = false) :
+    makeInterest H (pre ++ c :: post) mid appParam sigInfo signer =
+      interestCore H (pre ++ c :: post) mid (effApp signer.isSome appParam) sigInfo signer true
+        (some pre.length) := by
+  unfold makeInterest
+  simp only [hneed, digestPos_at pre c post 0 hpre hc hpost, Nat.zero_add, bind, Except.bind]
+
+/-- `make_interest` without a signer but with ApplicationParameters, on a name without digest component, is
+    `interestCore … none true none` (the unsigned counterpart of `make_interest_is_core`). -/
+theorem make_interest_is_core_params (H : Bytes → Bytes) (name : List Bytes) (mid : List Value)
+    (appParam sigInfo : Value) (hnd : ∀ c ∈ name, isDigestComp c = false) (hp : isNone appParam = false) :
+    makeInterest H name mid appParam sigInfo none = interestCore H name mid appParam sigInfo none true none := by
+  have e1 : effApp (none : Option SignerOut).isSome appParam = appParam := by simp [effApp]
+  unfold makeInterest
+  simp only [e1, hp, Bool.not_false, digestPos_no_digest true name 0 hnd, bind, Except.bind]
+
+/-- **make_interest_wire_at.** `make_interest_wire` for a caller-supplied placeholder: the wire carries the given
+    name with the placeholder's 32 value bytes replaced by `H` of ApplicationParameters … end; that name is also
+    the returned final name; the signer was handed the name without the digest component. -/
+theorem make_interest_wire_at (H : Bytes → Bytes) (name : List Bytes) (i : Nat) (mid : List Value)
+    (app sigInfo : Value) (s : SignerOut) (midB tailA : Bytes)
+    (hmid : encFields [.bool 33, .bool 18, linksS, .uint 10 (some 4), .uint 12 none, .uint 34 (some 1)] mid = .ok midB)
+    (htail : encFields [.bytes 36 false, intSigInfoS] [app, sigInfo] = .ok tailA)
+    (hle : s.sig.length ≤ s.reserved) (hflex : s.sig.length = s.reserved ∨ s.reserved < 253)
+    (hr : s.reserved < 2 ^ 64) :
+    ∀ (digested : Bytes) (comps : List Bytes), digested = tailA ++ tlv 46 s.sig →
+    comps = placeDigest name i (H digested) →
+    (concatB comps).length + midB.length + tailA.length + s.reserved + 64 < 2 ^ 64 →
+    interestCore H name mid app sigInfo (some s) true (some i) =
+      .ok { wire := tlv 5 (tlv 7 (concatB comps) ++ midB ++ tailA ++ tlv 46 s.sig),
+            covered := nameChunks comps (some i) ++ [tailA],
+            finalName := comps, digestCovered := digested } := by
+  intro digested comps hd hc hcl
+  subst hd
+  obtain ⟨junk, hsv, hj⟩ := sigValueElem_ok 46 s hle hr hflex
+  have hlen46 : tlNumSize 46 = 1 := by decide
+  have hsvlen : (writeTlNum 46 ++ writeTlNum s.sig.length ++ s.sig ++ junk).length - (s.reserved - s.sig.length)
+      = (tlv 46 s.sig).length := by
+    simp [tlv, hj]; omega
+  have htake : (writeTlNum 46 ++ writeTlNum s.sig.length ++ s.sig ++ junk).take (tlv 46 s.sig).length
+      = tlv 46 s.sig := by
+    have : writeTlNum 46 ++ writeTlNum s.sig.length ++ s.sig ++ junk = tlv 46 s.sig ++ junk := by
+      simp [tlv, List.append_assoc]
+    rw [this, List.take_left']; rfl
+  unfold interestCore
+  simp only [Option.isNone_some, Bool.and_false, Bool.false_eq_true, if_false, bind, Except.bind, hmid, htail,
+    hsv, hsvlen, htake, pure, Except.pure]
+  have htl : tlvE 7 (concatB comps) = .ok (tlv 7 (concatB comps)) := by
+    simp [tlvE]; omega
+  rw [← hc]
+  simp only [htl]
+  have hkeep : tlv 7 (concatB comps) ++ midB ++ tailA ++
+      (writeTlNum 46 ++ writeTlNum s.sig.length ++ s.sig ++ junk)
+      = (tlv 7 (concatB comps) ++ midB ++ tailA ++ tlv 46 s.sig) ++ junk := by
+    simp [tlv, List.append_assoc]
+  rw [hkeep, ← hj, wrapShrink_spec 5 _ junk (by decide) (by
+    simp only [List.length_append, tlv_length, hj, hlen46]
+    have h7 : tlNumSize 7 = 1 := by decide
+    have := tlNumSize_cases (concatB comps).length
+    have := tlNumSize_cases s.sig.length
+    omega)]
+  simp
+
+/-- **make_interest_params_wire_at.** The unsigned case (ApplicationParameters given) with a placeholder. -/
+theorem make_interest_params_wire_at (H : Bytes → Bytes) (name : List Bytes) (i : Nat) (mid : List Value)
+    (app sigInfo : Value) (midB tailA : Bytes)
+    (hmid : encFields [.bool 33, .bool 18, linksS, .uint 10 (some 4), .uint 12 none, .uint 34 (some 1)] mid = .ok midB)
+    (htail : encFields [.bytes 36 false, intSigInfoS] [app, sigInfo] = .ok tailA) :
+    ∀ (comps : List Bytes), comps = placeDigest name i (H tailA) →
+    (concatB comps).length + midB.length + tailA.length + 64 < 2 ^ 64 →
+    interestCore H name mid app sigInfo none true (some i) =
+      .ok { wire := tlv 5 (tlv 7 (concatB comps) ++ midB ++ tailA), covered := [],
+            finalName := comps, digestCovered := tailA } := by
+  intro comps hc hcl
+  unfold interestCore
+  simp only [Option.isNone_some, Bool.and_false, Bool.false_eq_true, if_false, bind, Except.bind, hmid, htail,
+    pure, Except.pure, List.length_nil, Nat.sub_self, List.take_nil, List.append_nil]
+  have htl : tlvE 7 (concatB comps) = .ok (tlv 7 (concatB comps)) := by
+    simp [tlvE]; omega
+  rw [← hc]
+  simp only [htl]
+  have := wrapShrink_spec 5 (tlv 7 (concatB comps) ++ midB ++ tailA) [] (by decide) (by
+    simp only [List.append_nil, List.length_append, tlv_length]
+    have h7 : tlNumSize 7 = 1 := by decide
+    have := tlNumSize_cases (concatB comps).length
+    omega)
+  simp only [List.append_nil, List.length_nil] at this
+  rw [this]
+  simp
+
+/-- **parse_make_interest_placeholder.** `parse_interest(make_interest(...))` for a signed Interest whose name
+    `pre ++ [02 20 x] ++ post` carries a caller-supplied ParametersSha256Digest placeholder (32 arbitrary bytes `x`)
+    at **any** position: the made packet's final name and the parsed name are both `pre ++ [02 20 H(digested)] ++
+    post`, where `digested` is the bytes from ApplicationParameters to the end of the Interest — exactly the range
+    the parser reports as digest-covered — and the parameters, ApplicationParameters, SignatureInfo and signature
+    value come back unchanged; the signature covers the name without the digest component and the parameters. -/
+theorem parse_make_interest_placeholder (H : Bytes → Bytes) (pre post : List Bytes) (x : Bytes)
+    (mid : List Value) (app sigInfo : Value) (s : SignerOut) (midB tailA : Bytes)
+    (hmid : encFields [.bool 33, .bool 18, linksS, .uint 10 (some 4), .uint 12 none, .uint 34 (some 1)] mid = .ok midB)
+    (htail : encFields [.bytes 36 false, intSigInfoS] [app, sigInfo] = .ok tailA)
+    (hle : s.sig.length ≤ s.reserved) (hflex : s.sig.length = s.reserved ∨ s.reserved < 253)
+    (hr : s.reserved < 2 ^ 64) (hx : x.length = 32)
+    (hpre : pre.all compOk = true) (hpost : post.all compOk = true)
+    (hndpre : ∀ c ∈ pre, isDigestComp c = false) (hndpost : ∀ c ∈ post, isDigestComp c = false)
+    (hfitmid : fitsFs [.bool 33, .bool 18, linksS, .uint 10 (some 4), .uint 12 none, .uint 34 (some 1)] mid = true)
+    (hfittail : fitsFs [.bytes 36 false, intSigInfoS] [app, sigInfo] = true) :
+    ∀ (digested : Bytes) (comps : List Bytes), digested = tailA ++ tlv 46 s.sig →
+    (H digested).length = 32 → comps = pre ++ (2 :: 32 :: H digested) :: post →
+    (concatB comps).length + midB.length + tailA.length + s.reserved + 64 < 2 ^ 64 →
+    ∃ m, interestCore H (pre ++ (2 :: 32 :: x) :: post) mid app sigInfo (some s) true (some pre.length) = .ok m ∧
+      m.finalName = comps ∧
+      parseInterest m.wire =
+        .ok (List.replicate 7 (Value.uint 0) ++ (Value.name comps :: mid) ++
+             List.replicate 2 (Value.uint (tlv 7 (concatB comps) ++ midB).length) ++
+             [app, sigInfo, Value.bytes s.sig] ++ [Value.none],
+             { sigCovered := pre ++ post ++ [tailA], sigValue := some s.sig,
+               digestCovered := [digested], digestValue := some (H digested) }) := by
+  intro digested comps hd hH hc hcl
+  subst hd
+  have hc' : comps = placeDigest (pre ++ (2 :: 32 :: x) :: post) pre.length (H (tailA ++ tlv 46 s.sig)) := by
+    rw [placeDigest_placeholder pre post x _ hx]; exact hc
+  have hw := make_interest_wire_at H _ pre.length mid app sigInfo s midB tailA hmid htail hle hflex hr _ comps rfl
+    hc' hcl
+  refine ⟨_, hw, rfl, ?_⟩
+  subst hc
+  have hsize : (tlv 7 (concatB (pre ++ (2 :: 32 :: H (tailA ++ tlv 46 s.sig)) :: post)) ++ midB ++ tailA ++
+      tlv 46 s.sig).length < 2 ^ 64 := by
+    simp only [List.length_append, tlv_length]
+    have h7 : tlNumSize 7 = 1 := by decide
+    have h46 : tlNumSize 46 = 1 := by decide
+    have := tlNumSize_cases (concatB (pre ++ (2 :: 32 :: H (tailA ++ tlv 46 s.sig)) :: post)).length
+    have := tlNumSize_cases s.sig.length
+    omega
+  exact parseInterest_signed_at pre post _ mid app sigInfo s.sig midB tailA hmid htail hpre hpost hndpre hndpost hH
+    hfitmid hfittail (by omega) hsize
+
+/-- **parse_make_interest_params_placeholder.** The same for an unsigned Interest with (non-empty encoded)
+    ApplicationParameters and a placeholder anywhere in the name: the digest component of the final / parsed name
+    is `H` of ApplicationParameters … end, no signature value comes back. -/
+theorem parse_make_interest_params_placeholder (H : Bytes → Bytes) (pre post : List Bytes) (x : Bytes)
+    (mid : List Value) (app sigInfo : Value) (midB tailA : Bytes)
+    (hmid : encFields [.bool 33, .bool 18, linksS, .uint 10 (some 4), .uint 12 none, .uint 34 (some 1)] mid = .ok midB)
+    (htail : encFields [.bytes 36 false, intSigInfoS] [app, sigInfo] = .ok tailA) (hx : x.length = 32)
+    (hpre : pre.all compOk = true) (hpost : post.all compOk = true)
+    (hndpre : ∀ c ∈ pre, isDigestComp c = false) (hndpost : ∀ c ∈ post, isDigestComp c = false)
+    (hfitmid : fitsFs [.bool 33, .bool 18, linksS, .uint 10 (some 4), .uint 12 none, .uint 34 (some 1)] mid = true)
+    (hfittail : fitsFs [.bytes 36 false, intSigInfoS] [app, sigInfo] = true)
+    (hne : tailA ≠ []) (hH : (H tailA).length = 32) :
+    ∀ (comps : List Bytes), comps = pre ++ (2 :: 32 :: H tailA) :: post →
+    (concatB comps).length + midB.length + tailA.length + 64 < 2 ^ 64 →
+    ∃ m, interestCore H (pre ++ (2 :: 32 :: x) :: post) mid app sigInfo none true (some pre.length) = .ok m ∧
+      m.finalName = comps ∧
+      parseInterest m.wire =
+        .ok (List.replicate 7 (Value.uint 0) ++ (Value.name comps :: mid) ++
+             List.replicate 2 (Value.uint (tlv 7 (concatB comps) ++ midB).length) ++
+             [app, sigInfo, Value.none] ++ [Value.none],
+             { sigCovered := pre ++ post, sigValue := none,
+               digestCovered := [tailA], digestValue := some (H tailA) }) := by
+  intro comps hc hcl
+  have hc' : comps = placeDigest (pre ++ (2 :: 32 :: x) :: post) pre.length (H tailA) := by
+    rw [placeDigest_placeholder pre post x _ hx]; exact hc
+  have hw := make_interest_params_wire_at H _ pre.length mid app sigInfo midB tailA hmid htail comps hc' hcl
+  refine ⟨_, hw, rfl, ?_⟩
+  subst hc
+  have hsize : (tlv 7 (concatB (pre ++ (2 :: 32 :: H tailA) :: post)) ++ midB ++ tailA).length < 2 ^ 64 := by
+    simp only [List.length_append, tlv_length]
+    have h7 : tlNumSize 7 = 1 := by decide
+    have := tlNumSize_cases (concatB (pre ++ (2 :: 32 :: H tailA) :: post)).length
+    omega
+  exact parseInterest_params_at pre post _ mid app sigInfo midB tailA hmid htail hpre hpost hndpre hndpost hH
+    hfitmid hfittail hne hsize
+
+/-! non-vacuity: a placeholder in the middle of the name, unsigned with ApplicationParameters -/
+example :
+    (do let m ← makeInterest (fun _ => List.replicate 32 9) [[8, 1, 97], 2 :: 32 :: List.replicate 32 0, [8, 1, 98]]
+                  [.bool, .none, .none, .uint 7, .none, .uint 3] (.bytes [1]) .none none
+        let (vs, p) ← parseInterest m.wire
+        pure (m.finalName, vs[7]?, p.digestValue)) =
+    .ok ([[8, 1, 97], 2 :: 32 :: List.replicate 32 9, [8, 1, 98]],
+         some (Value.name [[8, 1, 97], 2 :: 32 :: List.replicate 32 9, [8, 1, 98]]),
+         some (List.replicate 32 9)) := by
+  rfl
+
+/-! ### an unsigned Data with its OffsetMarker pseudo-fields -/
+
+theorem dataFs_eq : dataFs = List.replicate 5 Schema.marker ++ dataValueFs := rfl
+
+/-- the scan loop of `DataPacketValue.parse` on the encoded real fields: the five leading pseudo-fields record
+    offset 0 -/
+theorem parse_data_value (vs5 : List Value) (p5 : Bytes) (h5 : encFields dataValueFs vs5 = .ok p5)
+    (hfit5 : fitsFs dataValueFs vs5 = true) (hne : p5 ≠ []) :
+    parse dataFs false p5 = .ok (List.replicate 5 (Value.uint 0) ++ vs5) := by
+  obtain ⟨items, hok, hencI, hfold⟩ := rt_suffix (List.replicate 5 Schema.marker) dataValueFs _ _
+    (by decide) (by decide) hfit5 h5
+  have hni : items ≠ [] := by
+    intro e; subst e
+    simp only [encItems] at hencI
+    exact hne hencI.symm
+  obtain ⟨it, r, rfl⟩ := List.exists_cons_of_ne_nil hni
+  simp only [List.length_replicate] at hok
+  have hl := loop_prefix_m dataFs false (by decide) [] (it :: r) (p5.length + 1) 0 0
+    (dataFs.map initVal) (ItemsOK_mono _ _ 5 0 (by omega) hok) (by rw [List.append_nil, hencI]; omega)
+  rw [List.append_nil, hencI] at hl
+  have hlead := runItems_lead 5 dataValueFs (by decide) it r (List.replicate 5 Value.none)
+    (dataValueFs.map initVal) (by simp) hok
+  have hd := hfold (List.replicate 5 (Value.uint 0)) (by simp)
+  have hge := encItems_len_ge (it :: r)
+  rw [hencI] at hge
+  unfold parse
+  rw [hl]
+  have hfu : p5.length + 1 - (it :: r).length = (p5.length - (it :: r).length) + 1 := by omega
+  rw [hfu]
+  simp only [parseFields, List.isEmpty_nil, if_true]
+  have e0 : dataFs.map initVal = List.replicate 5 Value.none ++ dataValueFs.map initVal := rfl
+  rw [e0, ← dataFs_eq] at *
+  rw [hlead, hd]
+
+/-- **parse_make_data_unsigned.** `parse_data(make_data(name, meta_info, content))` without a signer, on the full
+    Data field list with its five OffsetMarker / ProcedureArgument pseudo-fields: the name, MetaInfo, Content (and
+    SignatureInfo, when one was given) come back, the pseudo-fields hold offset 0, no SignatureValue, and all
+    signature pointers are empty. -/
+theorem parse_make_data_unsigned (name : List Bytes) (mi content sigInfo : Value) (p : Bytes)
+    (hp : encFields [nameS, metaS, contentS, dataSigInfoS] [.name name, mi, content, sigInfo] = .ok p)
+    (hfit : fitsFs [nameS, metaS, contentS, dataSigInfoS] [.name name, mi, content, sigInfo] = true)
+    (hsize : p.length < 2 ^ 64) :
+    ∃ m, makeData name mi content sigInfo none = .ok m ∧ m.covered = [] ∧
+      parseData m.wire =
+        .ok (List.replicate 5 (Value.uint 0) ++ [.name name, mi, content, sigInfo, .none],
+             { sigCovered := [], sigValue := none, digestCovered := [], digestValue := none }) := by
+  refine ⟨_, make_data_unsigned_wire name mi content sigInfo p hp hsize, rfl, ?_⟩
+  have h5 := encFields_append_one [nameS, metaS, contentS, dataSigInfoS] [.name name, mi, content, sigInfo]
+    (.bytes 23 false) .none p [] rfl hp (by simp [enc])
+  rw [List.append_nil] at h5
+  have hfit5 : fitsFs dataValueFs [.name name, mi, content, sigInfo, .none] = true := by
+    simp only [dataValueFs, fitsFs, Bool.and_eq_true] at hfit ⊢
+    refine ⟨hfit.1, hfit.2.1, hfit.2.2.1, hfit.2.2.2.1, ?_, trivial⟩
+    simp [fits]
+  -- the Name element is always there
+  have hne : p ≠ [] := by
+    simp only [encFields] at hp
+    obtain ⟨a, ha, h2⟩ := bind_ok hp
+    obtain ⟨b', _, h3⟩ := bind_ok h2
+    simp only [pure, Except.pure, Except.ok.injEq] at h3
+    subst h3
+    simp only [nameS, enc] at ha
+    obtain ⟨rfl, _, _⟩ := tlvE_ok ha
+    intro e
+    exact tlv_ne_nil 7 _ (List.append_eq_nil_iff.mp e).1
+  have hparse := parse_data_value _ p h5 hfit5 hne
+  have hck := parseAndCheckTl_tlv 6 p (by decide) hsize
+  have hdec : decodePacket dataFs 6 false true [] (tlv 6 p) =
+      .ok (List.replicate 5 (Value.uint 0) ++ [.name name, mi, content, sigInfo, .none]) := by
+    unfold decodePacket
+    simp only [hck, hparse, bind, Except.bind, anyPresent_nil]
+    simp [nameMissing, nameIdx, dataFs, nameS, isNone, List.replicate]
+  unfold parseData
+  simp only [hdec, hck, bind, Except.bind, pure, Except.pure]
+  simp [bytesOf, List.replicate]
+
+/-! non-vacuity: an unsigned Data with MetaInfo and Content -/
+example :
+    (do let m ← makeData [[8, 1, 97]] (.model [.uint 0, .none, .none]) (.bytes [120, 121]) .none none
+        let (vs, p) ← parseData m.wire
+        pure (vs, p.sigCovered, p.sigValue)) =
+    .ok (List.replicate 5 (Value.uint 0) ++
+           [.name [[8, 1, 97]], .model [.uint 0, .none, .none], .bytes [120, 121], .none, .none], [], none) := by
   rfl
 
 end Ndn.C01
